@@ -132,3 +132,254 @@ def orun : ODeb → List OAct → Option ODeb
     | some s' => orun s' as
     | none => none
 end Pool
+
+namespace Pool
+
+/-! ### refreshDebouncer WITH its broadcaster and the refreshNow waiters (host_source.go)
+
+```go
+func (d *refreshDebouncer) refreshNow() <-chan error {            // lock
+    if d.broadcaster == nil { d.broadcaster = newErrorBroadcaster()
+        select { case d.refreshNowCh <- struct{}{}: default: } }
+    return d.broadcaster.newListener() }
+func (d *refreshDebouncer) flusher() { for {
+    select { case <-d.refreshNowCh: case <-d.timer.C: case <-d.quit: }
+    d.mu.Lock()
+    if d.stopped { if d.broadcaster != nil { d.broadcaster.stop(); d.broadcaster = nil }; d.timer.Stop(); unlock; return }
+    drain refreshNowCh; d.timer.Stop(); drain timer.C
+    curBroadcaster := d.broadcaster; d.broadcaster = nil; unlock
+    err := d.refreshFn(); if curBroadcaster != nil { curBroadcaster.broadcast(err) } } }
+```
+Waiters are numbered in the order of their refreshNow() calls. `served` = got the result of a refresh (value, then the
+channel is closed), `shut` = channel closed by broadcaster.stop(). -/
+
+inductive WakeBy where
+  | now | timer | quit
+deriving DecidableEq, Repr
+
+structure WDeb where
+  stopped : Bool
+  quitClosed : Bool
+  token : Bool               -- refreshNowCh (capacity 1) holds its token
+  timerArmed : Bool
+  f : FPc
+  pend : Option (List Nat)   -- d.broadcaster: the listeners of the refresh asked for and not yet started (none = nil)
+  cur : Option (List Nat)    -- curBroadcaster of the refresh being executed
+  served : List Nat
+  shut : List Nat
+  nextW : Nat
+  late : Bool                -- ghost: some refreshNow() ran after the flusher had returned
+deriving DecidableEq, Repr
+
+inductive WAct where
+  | refreshNow | debounce
+  | wake (by_ : WakeBy)   -- flusher: the select takes a ready case (Go picks any ready one)
+  | lock                  -- flusher: takes the mutex, looks at `stopped`
+  | refreshDone           -- refreshFn returned; curBroadcaster.broadcast(err)
+  | stop
+deriving DecidableEq, Repr
+
+def WDeb.init : WDeb :=
+  { stopped := false, quitClosed := false, token := false, timerArmed := false, f := .select, pend := none, cur := none,
+    served := [], shut := [], nextW := 0, late := false }
+
+def ls (o : Option (List Nat)) : List Nat := o.getD []
+
+/-- refreshNow() of the code that exists (`fixed = false`) and of the proposed repair (`fixed = true`: a stopped
+    debouncer hands out a closed channel) -/
+def wRefreshNow (fixed : Bool) (d : WDeb) : WDeb :=
+  if fixed && d.stopped then { d with shut := d.shut ++ [d.nextW], nextW := d.nextW + 1 }
+  else match d.pend with
+    | none => { d with pend := some [d.nextW], token := true, nextW := d.nextW + 1, late := d.late || d.f == .exited }
+    | some l => { d with pend := some (l ++ [d.nextW]), nextW := d.nextW + 1, late := d.late || d.f == .exited }
+
+def wReady (d : WDeb) : WakeBy → Bool
+  | .now => d.token
+  | .timer => d.timerArmed
+  | .quit => d.quitClosed
+
+def wConsume (d : WDeb) : WakeBy → WDeb
+  | .now => { d with token := false }
+  | .timer => { d with timerArmed := false }
+  | .quit => d
+
+def wstepG (fixed : Bool) (d : WDeb) : WAct → Option WDeb
+  | .refreshNow => some (wRefreshNow fixed d)
+  | .debounce => if d.stopped then some d else some { d with timerArmed := true }
+  | .wake b => if d.f = .select ∧ wReady d b then some { wConsume d b with f := .woken } else none
+  | .lock =>
+      if d.f = .woken then
+        if d.stopped then some { d with f := .exited, timerArmed := false, shut := d.shut ++ ls d.pend, pend := none }
+        else some { d with f := .refreshing, token := false, timerArmed := false, cur := d.pend, pend := none }
+      else none
+  | .refreshDone => if d.f = .refreshing then some { d with f := .select, served := d.served ++ ls d.cur, cur := none } else none
+  | .stop => some { d with stopped := true, quitClosed := true }
+
+def wstep : WDeb → WAct → Option WDeb := wstepG false
+def wstepFixed : WDeb → WAct → Option WDeb := wstepG true
+
+def wrunG (fixed : Bool) : WDeb → List WAct → Option WDeb
+  | s, [] => some s
+  | s, a :: as => match wstepG fixed s a with
+    | some s' => wrunG fixed s' as
+    | none => none
+
+def wrun : WDeb → List WAct → Option WDeb := wrunG false
+
+/-- the seeded family: the flusher returns straight from the quit case of its select (lock; timer.Stop(); unlock;
+    return) without the `if d.stopped { broadcaster.stop() … }` block -/
+def wstepQuitReturn (d : WDeb) : WAct → Option WDeb
+  | .wake .quit => if d.f = .select ∧ d.quitClosed then some { d with f := .exited, timerArmed := false } else none
+  | a => wstep d a
+
+def wrunQuitReturn : WDeb → List WAct → Option WDeb
+  | s, [] => some s
+  | s, a :: as => match wstepQuitReturn s a with
+    | some s' => wrunQuitReturn s' as
+    | none => none
+
+def WDeb.released (d : WDeb) (w : Nat) : Prop := w ∈ d.served ∨ w ∈ d.shut
+
+end Pool
+
+/-! ### policyConnPool (connectionpool.go): the pool registry of ONE host id under concurrent callers
+
+```go
+func (p *policyConnPool) addHost(host *HostInfo) {
+    hostID := host.HostID()
+    p.mu.Lock()
+    pool, ok := p.hostConnPools[hostID]                                   // lookup
+    if !ok { pool = newHostConnPool(p.session, host, host.Port(), …)      // create
+             p.hostConnPools[hostID] = pool }                             // store
+    p.mu.Unlock()
+    pool.fill() }
+func (p *policyConnPool) removeHost(hostID string) { p.mu.Lock(); pool, ok := …; if !ok { unlock; return }
+    delete(p.hostConnPools, hostID); p.mu.Unlock(); go pool.Close() }
+func (p *policyConnPool) Close() { p.mu.Lock(); defer p.mu.Unlock(); for addr, pool := range … { delete; pool.Close() } }
+```
+Any number of callers (UP event, ring refresh startPoolFill, reconnect ticker, controlConn.setupConn; DOWN event, ring
+refresh removeHost; Session.Close) at once. The mutex discipline of the code that exists is built into the state: `crit`
+is the one caller inside policyConnPool.mu, every other caller is outside (waiting for the mutex, or past its unlock with
+`pool.fill()` / `go pool.Close()` still to run). Pool objects are numbered in the order of their creation. -/
+namespace Reg
+
+inductive Crit where
+  | addIn                       -- addHost: took the mutex
+  | addLooked (hit : Option Nat) -- … looked the host up
+  | addCreated (i : Nat)        -- … missed and built pool i (newHostConnPool returned), not stored yet
+  | addStored (i : Nat)         -- … stored it
+  | rmIn                        -- removeHost: took the mutex
+  | rmMiss                      -- … no pool registered
+  | rmDeleted (i : Nat)         -- … deleted the entry of pool i
+  | clIn                        -- policyConnPool.Close: took the mutex
+  | clDone                      -- … deleted every entry and closed every pool
+deriving DecidableEq, Repr
+
+structure St where
+  reg : Option Nat          -- hostConnPools[hostID]
+  pools : List Bool         -- closed flag of every hostConnPool object ever built for the host
+  crit : Option Crit        -- the caller inside policyConnPool.mu (none: the mutex is free)
+  addWait : Nat             -- addHost callers that have not taken the mutex yet
+  rmWait : Nat
+  clWait : Nat
+  toFill : List Nat         -- addHost callers past the unlock: pool.fill() still to be called on pool i
+  toClose : List Nat        -- removeHost callers past the unlock: `go pool.Close()` still to run on pool i
+  filled : List Nat         -- ghost: the pools fill() has been called on
+  missed : Nat              -- split-lock variant only: callers that missed under the read lock and are building a pool
+  made : List Nat           -- split-lock variant only: callers that built pool i and have not stored it yet
+deriving DecidableEq, Repr
+
+def St.init (registered : Bool) : St :=
+  { reg := if registered then some 0 else none, pools := if registered then [false] else [], crit := none,
+    addWait := 0, rmWait := 0, clWait := 0, toFill := [], toClose := [], filled := [], missed := 0, made := [] }
+
+inductive Act where
+  | callAdd | callRemove | callClose          -- a new caller arrives
+  | addLock | addLookup | addCreate | addStore | addUnlock
+  | fill (i : Nat)                            -- pool.fill() of an addHost caller past its unlock
+  | rmLock | rmLookup | rmUnlock
+  | close (i : Nat)                           -- `go pool.Close()` of a removeHost caller runs
+  | clLock | clSweep | clUnlock
+  -- the split-lock variant of addHost (lookup under the read lock; create unlocked; store under the write lock, no re-check)
+  | sLookup | sMake | sStore (i : Nat)
+deriving DecidableEq, Repr
+
+def setClosed : List Bool → Nat → List Bool
+  | [], _ => []
+  | _ :: bs, 0 => true :: bs
+  | b :: bs, n + 1 => b :: setClosed bs n
+
+/-- the code that exists -/
+def step (s : St) : Act → Option St
+  | .callAdd => some { s with addWait := s.addWait + 1 }
+  | .callRemove => some { s with rmWait := s.rmWait + 1 }
+  | .callClose => some { s with clWait := s.clWait + 1 }
+  | .addLock => if s.crit = none ∧ 0 < s.addWait then some { s with crit := some .addIn, addWait := s.addWait - 1 } else none
+  | .addLookup => if s.crit = some .addIn then some { s with crit := some (.addLooked s.reg) } else none
+  | .addCreate =>
+      if s.crit = some (.addLooked none) then some { s with crit := some (.addCreated s.pools.length), pools := s.pools ++ [false] }
+      else none
+  | .addStore => match s.crit with
+      | some (.addCreated i) => some { s with crit := some (.addStored i), reg := some i }
+      | _ => none
+  | .addUnlock => match s.crit with
+      | some (.addLooked (some i)) => some { s with crit := none, toFill := s.toFill ++ [i] }
+      | some (.addStored i) => some { s with crit := none, toFill := s.toFill ++ [i] }
+      | _ => none
+  | .fill i => if i ∈ s.toFill then some { s with toFill := s.toFill.erase i, filled := s.filled ++ [i] } else none
+  | .rmLock => if s.crit = none ∧ 0 < s.rmWait then some { s with crit := some .rmIn, rmWait := s.rmWait - 1 } else none
+  | .rmLookup =>
+      if s.crit = some .rmIn then
+        match s.reg with
+        | none => some { s with crit := some .rmMiss }
+        | some i => some { s with crit := some (.rmDeleted i), reg := none }
+      else none
+  | .rmUnlock => match s.crit with
+      | some .rmMiss => some { s with crit := none }
+      | some (.rmDeleted i) => some { s with crit := none, toClose := s.toClose ++ [i] }
+      | _ => none
+  | .close i => if i ∈ s.toClose then some { s with toClose := s.toClose.erase i, pools := setClosed s.pools i } else none
+  | .clLock => if s.crit = none ∧ 0 < s.clWait then some { s with crit := some .clIn, clWait := s.clWait - 1 } else none
+  | .clSweep =>
+      if s.crit = some .clIn then
+        match s.reg with
+        | none => some { s with crit := some .clDone }
+        | some i => some { s with crit := some .clDone, reg := none, pools := setClosed s.pools i }
+      else none
+  | .clUnlock => if s.crit = some .clDone then some { s with crit := none } else none
+  | .sLookup => none
+  | .sMake => none
+  | .sStore _ => none
+
+def run : St → List Act → Option St
+  | s, [] => some s
+  | s, a :: as => match step s a with
+    | some s' => run s' as
+    | none => none
+
+/-- the seeded family: addHost looks the pool up under the READ lock (any number of callers at once, none while a
+    writer is inside), builds the pool unlocked and stores it under the write lock without looking again -/
+def stepSplit (s : St) : Act → Option St
+  | .addLock => none | .addLookup => none | .addCreate => none | .addStore => none | .addUnlock => none
+  | .sLookup =>
+      if s.crit = none ∧ 0 < s.addWait then
+        match s.reg with
+        | some i => some { s with addWait := s.addWait - 1, toFill := s.toFill ++ [i] }
+        | none => some { s with addWait := s.addWait - 1, missed := s.missed + 1 }
+      else none
+  | .sMake => if 0 < s.missed then some { s with missed := s.missed - 1, made := s.made ++ [s.pools.length], pools := s.pools ++ [false] } else none
+  | .sStore i =>
+      if s.crit = none ∧ i ∈ s.made then some { s with made := s.made.erase i, reg := some i, toFill := s.toFill ++ [i] } else none
+  | a => step s a
+
+def runSplit : St → List Act → Option St
+  | s, [] => some s
+  | s, a :: as => match stepSplit s a with
+    | some s' => runSplit s' as
+    | none => none
+
+/-- pool i has been built, is not closed, and nobody is committed to closing it -/
+def St.live (s : St) (i : Nat) : Prop :=
+  s.pools[i]? = some false ∧ s.crit ≠ some (.rmDeleted i) ∧ i ∉ s.toClose
+
+end Reg
